@@ -218,6 +218,10 @@ GEN = {
     "GenC03": ["Gen_buildSelfLink_eq", "Gen_buildRelationshipLinks_eq"],
     "GenC08": ["Gen_parseCommaList_eq", "Gen_parseFragments_eq"],
     "GenC15": ["Gen_Schema_HasType_eq", "Gen_Schema_GetType_eq"],
+    "GenC14b": ["Gen_Type_AddAttr_eq", "Gen_Type_RemoveAttr_eq", "Gen_Type_AddRel_eq", "Gen_Type_RemoveRel_eq",
+                "Gen_Schema_AddType_eq", "Gen_Schema_RemoveType_eq", "Gen_Schema_AddAttr_eq", "Gen_Schema_RemoveAttr_eq",
+                "Gen_Schema_AddRel_eq", "Gen_Schema_RemoveRel_eq", "Gen_Schema_AddTwoWayRel_eq",
+                "Gen_Schema_AddTwoWayRel_differs_without_unique_names"],
     "GenC07": ["Gen_deduceRoute_nil", "Gen_deduceRoute_take5", "Gen_deduceRoute_col", "Gen_deduceRoute_res",
                "Gen_deduceRoute_related", "Gen_deduceRoute_self"],
 }
@@ -226,11 +230,12 @@ GEN_WHAT = {
     "GenC10": "checkStr, checkInt, checkUint, checkBool, checkTime and checkIn",
     "GenC08": "parseCommaList and parseFragments",
     "GenC15": "Schema.HasType and Schema.GetType",
+    "GenC14b": "the receiver-mutating methods of the schema editing API (Type.AddAttr/RemoveAttr/AddRel/RemoveRel, Schema.AddType/RemoveType/AddAttr/RemoveAttr/AddRel/RemoveRel/AddTwoWayRel; the receiver is threaded through as a value; AddTwoWayRel under the hypothesis that type names are unique, with a checked counterexample without it)",
     "GenC14": "GetAttrType and GetAttrTypeString",
     "GenC03": "buildSelfLink and buildRelationshipLinks",
     "GenC07": "deduceRoute",
 }
-GEN_USERS = {"C16": ["GenC16"], "C10": ["GenC10"], "C09": ["GenC10"], "C14": ["GenC14", "GenC15"], "C15": ["GenC15"], "C12": ["GenC15"], "C17": ["GenC14"], "C19": ["GenC14"],
+GEN_USERS = {"C16": ["GenC16"], "C10": ["GenC10"], "C09": ["GenC10"], "C14": ["GenC14", "GenC15", "GenC14b"], "C15": ["GenC15"], "C12": ["GenC15"], "C17": ["GenC14"], "C19": ["GenC14"],
              "C03": ["GenC03"], "C04": ["GenC03"], "C07": ["GenC07", "GenC08"], "C08": ["GenC08"]}
 for _pid, _mods in GEN_USERS.items():
     _c = PROPS[_pid]
